@@ -211,3 +211,14 @@ Example C37_leaf_example :
     run g0 ops = Ok g /\ pre_opb g (RemoveSuccessorsNodes 3) = true /\ dget (g_succs g) 3 = Some [] /\
     step g (RemoveSuccessorsNodes 3) = Ok (mkG [] [] [] [] None []).
 Proof. eexists. eexists. split; [vm_compute; reflexivity|]. repeat split; vm_compute; reflexivity. Qed.
+
+(* ------------------------------------------------------------------------------------------
+   The model's fuel for _checking_successors_nodes (depth = |keys| + 1) is not a hidden
+   assumption: whatever the traversal returns with some depth it returns with every larger
+   depth, so the bound only fixes where Python's endless recursion is reported as ERecursion. *)
+From Pydra Require Import Proofs.GraphFuel.
+
+Theorem C37_successor_traversal_fuel_irrelevant :
+  forall d d' sd n l, d <= d' -> succ_all d sd n = Ok l -> succ_all d' sd n = Ok l.
+Proof. exact succ_all_fuel_irrelevant. Qed.
+Print Assumptions C37_successor_traversal_fuel_irrelevant.
